@@ -865,15 +865,20 @@ def menu_product(menus):
     return ["".join(p) for p in itertools.product(*menus)]
 
 
+# inserted / substituted characters of the single-edit pass: the alphabet plus the metacharacters of str.format and
+# %-formatting (a rejected specifier is quoted in the error message - building it must not interpret the text)
+EDIT_CHARS = ALPHABET + "{}%"
+
+
 def single_edits(s):
     out = set()
     n = len(s)
     for i in range(n + 1):
-        for ch in ALPHABET:
+        for ch in EDIT_CHARS:
             out.add(s[:i] + ch + s[i:])
     for i in range(n):
         out.add(s[:i] + s[i + 1:])
-        for ch in ALPHABET:
+        for ch in EDIT_CHARS:
             if ch != s[i]:
                 out.add(s[:i] + ch + s[i + 1:])
     return out
